@@ -1,5 +1,5 @@
 (* C08 — compile is all-or-nothing. *)
-From Lace Require Import Word Asm Cli CliProofs.
+From Lace Require Import Word Asm Cli CliProofs CliWrite.
 From Lace Require Examples.
 Open Scope N_scope.
 
@@ -18,6 +18,34 @@ Theorem C08_atomic : forall feat src dest f o,
   (forall p, p <> dest -> f' p = f p).
 Proof. exact compile_all_or_nothing. Qed.
 Print Assumptions C08_atomic.
+
+(** The oracle refined (CliWrite.v): what `write_object_file` does for each KIND of destination (absent, regular,
+    link to a regular file, dangling link, device / pipe, directory) under each combination of faults (the directory
+    refuses the temporary file, the destination cannot be created, the write is cut off, the device takes no data, the
+    rename fails).  A destination that is absent, regular or a link to a regular file is never left half-written as long
+    as its directory takes the temporary file; with ONE fault of whatever kind nothing but a dangling link (whose target
+    did not exist) is; and the excluded outcome arises exactly when the write is cut off while the destination is
+    written directly. *)
+Theorem C08_kinds : forall feat src dest f k fl,
+  let '(e, f') := compile_cmd feat src dest f (outcome_of k fl) in
+  (e = 0 -> exists im, assembles feat src = Ok im /\ f' dest = Some (compile_bytes im)) /\
+  (e <> 0 -> (route_of k = Temp /\ temp_refused fl = false \/ single_fault fl /\ k <> KDangling) -> forall p, f' p = f p).
+Proof. exact compile_kinds. Qed.
+Print Assumptions C08_kinds.
+
+Theorem C08_truncated_iff : forall k fl n,
+  outcome_of k fl = WWriteFailTruncated n <->
+  write_stops fl = Some n /\ create_refused fl = false /\
+  (k = KDangling \/ (route_of k = Temp /\ temp_refused fl = true)).
+Proof. exact truncated_iff. Qed.
+Print Assumptions C08_truncated_iff.
+
+Example C08_kinds_nonvacuous :
+  outcome_of KRegular (mkFaults false false (Some 1024%nat) false false) = WTempFail /\
+  outcome_of KLinkRegular (mkFaults false false (Some 1024%nat) false false) = WTempFail /\
+  outcome_of KRegular (mkFaults true false (Some 1024%nat) false false) = WWriteFailTruncated 1024 /\
+  single_fault (mkFaults false false (Some 1024%nat) false false).
+Proof. repeat split; try reflexivity. unfold single_fault. cbn. apply N.le_refl. Qed.
 
 (** Assembly failure — at whatever statement it surfaces — never touches the file system. *)
 Theorem C08_failure_untouched : forall feat src dest f o d a n,
